@@ -7,6 +7,7 @@ import (
 	"os"
 	"os/exec"
 	"path/filepath"
+	"regexp"
 	"sort"
 	"strconv"
 	"strings"
@@ -32,6 +33,7 @@ type EntrySpec struct {
 	MaxSteps      int            `json:"max_steps"`
 	MaxSeconds    int            `json:"max_seconds"`
 	Solver        string         `json:"solver"`
+	SyncFiles     []string       `json:"sync_files"` // files under test whose lock acquisitions are scheduling points (thread layer)
 }
 
 type CheckSpec struct {
@@ -52,15 +54,16 @@ type KnownFinding struct {
 }
 
 type ReplayFile struct {
-	Property  string             `json:"property"`
-	Pkg       string             `json:"pkg"`
-	Func      string             `json:"func"`
-	Label     string             `json:"label"`
-	Nondet    map[string]uint64  `json:"nondet"`
-	Bounds    map[string]int     `json:"bounds"`
-	Decisions []interp.Decision  `json:"decisions,omitempty"`
-	Observed  []string           `json:"observed,omitempty"`
-	Meta      map[string]string  `json:"meta,omitempty"`
+	Property  string            `json:"property"`
+	Pkg       string            `json:"pkg"`
+	Func      string            `json:"func"`
+	Label     string            `json:"label"`
+	Nondet    map[string]uint64 `json:"nondet"`
+	Bounds    map[string]int    `json:"bounds"`
+	Decisions []interp.Decision `json:"decisions,omitempty"`
+	Observed  []string          `json:"observed,omitempty"`
+	Meta      map[string]string `json:"meta,omitempty"`
+	SyncFiles []string          `json:"sync_files,omitempty"`
 }
 
 func loadJSON(path string, v interface{}) error {
@@ -180,7 +183,7 @@ func CmdCheck(args []string) int {
 			problems = append(problems, err.Error())
 			continue
 		}
-		cfg := interp.Config{MapOrderAll: e.MapOrderAll, MapOrderRotations: e.MapRotations, MapOrderSeeds: e.MapOrderSeeds, SymbolicNanos: e.SymbolicNanos, Bounds: bounds, KnownOpen: knownOpen, MaxSteps: e.MaxSteps, SolverKind: e.Solver, Trace: *verbose}
+		cfg := interp.Config{MapOrderAll: e.MapOrderAll, MapOrderRotations: e.MapRotations, MapOrderSeeds: e.MapOrderSeeds, SymbolicNanos: e.SymbolicNanos, Bounds: bounds, KnownOpen: knownOpen, MaxSteps: e.MaxSteps, SolverKind: e.Solver, Trace: *verbose, SyncFiles: e.SyncFiles}
 		if *tier == "thorough" {
 			cfg.TimeoutMs = 120000
 		}
@@ -261,7 +264,7 @@ func CmdCheck(args []string) int {
 				continue
 			}
 			rf := ReplayFile{Property: id, Pkg: e.Pkg, Func: e.Func, Label: v.Label, Nondet: v.Nondet, Bounds: bounds,
-				Decisions: v.Decisions, Observed: v.Observed}
+				Decisions: v.Decisions, Observed: v.Observed, SyncFiles: e.SyncFiles}
 			dir := filepath.Join(VerifDir, "replays", id)
 			os.MkdirAll(dir, 0o755)
 			path := filepath.Join(dir, fmt.Sprintf("%s-%s-%d.json", e.Func, sanitize(v.Label), i))
@@ -438,7 +441,31 @@ func writeEvidence(id string, ev *Evidence) {
 // ---- native replay ----
 
 // nativeBuild compiles the harness of pkg into a test binary (go test -c -overlay).
-func nativeBuild(pkg, entry, tmp string) (string, string) {
+// instrumentSync writes a copy of a file under test with sync.Mutex / sync.RWMutex replaced by the
+// scheduler-aware shims of verifapi (regenerated from the current source on every build).
+func instrumentSync(rel, tmp string) (string, error) {
+	data, err := os.ReadFile(filepath.Join(RepoDir, rel))
+	if err != nil {
+		return "", err
+	}
+	src := string(data)
+	src = strings.ReplaceAll(src, "sync.RWMutex", "verifapi.RWMutex")
+	src = strings.ReplaceAll(src, "sync.Mutex", "verifapi.Mutex")
+	if !regexp.MustCompile(`\bsync\.`).MatchString(src) {
+		src = regexp.MustCompile(`(?m)^\s*"sync"\n`).ReplaceAllString(src, "")
+	}
+	if !strings.Contains(src, Module+"/internal/verifapi\"") {
+		if strings.Contains(src, "import (") {
+			src = strings.Replace(src, "import (", "import (\n\t\""+Module+"/internal/verifapi\"", 1)
+		} else {
+			src = regexp.MustCompile(`(?m)^package .*$`).ReplaceAllString(src, "$0\n\nimport \""+Module+"/internal/verifapi\"")
+		}
+	}
+	out := filepath.Join(tmp, "sync_"+sanitize(rel)+".go")
+	return out, os.WriteFile(out, []byte(src), 0o644)
+}
+
+func nativeBuild(pkg, entry, tmp string, syncFiles []string, race bool) (string, string) {
 	harnessDir := filepath.Join(VerifDir, "harness")
 	replace := map[string]string{}
 	filepath.Walk(harnessDir, func(p string, info os.FileInfo, err error) error {
@@ -448,6 +475,13 @@ func nativeBuild(pkg, entry, tmp string) (string, string) {
 		}
 		return nil
 	})
+	for _, sf := range syncFiles {
+		inst, err := instrumentSync(sf, tmp)
+		if err != nil {
+			return "", "instrumenting " + sf + ": " + err.Error()
+		}
+		replace[filepath.Join(RepoDir, sf)] = inst
+	}
 	pkgName, err := packageName(filepath.Join(RepoDir, pkg))
 	if err != nil {
 		pkgName, err = packageName(filepath.Join(harnessDir, pkg))
@@ -463,9 +497,16 @@ func nativeBuild(pkg, entry, tmp string) (string, string) {
 	ovFile := filepath.Join(tmp, "overlay.json")
 	os.WriteFile(ovFile, ovData, 0o644)
 	bin := filepath.Join(tmp, "replay.test")
-	build := exec.Command("go", "test", "-c", "-o", bin, "-tags", "verif", "-vet=off", "-overlay", ovFile, "./"+pkg+"/")
+	args := []string{"test", "-c", "-o", bin, "-tags", "verif", "-vet=off", "-overlay", ovFile}
+	if race {
+		args = append(args, "-race")
+	}
+	build := exec.Command("go", append(args, "./"+pkg+"/")...)
 	build.Dir = RepoDir
 	build.Env = append(os.Environ(), "GOFLAGS=-mod=readonly", "GOPROXY=off", "GOSUMDB=off", "GOTOOLCHAIN=local")
+	if race {
+		build.Env = append(build.Env, "CGO_ENABLED=1")
+	}
 	if bout, err := build.CombinedOutput(); err != nil {
 		return "", "native build of the harness failed: " + truncateStr(string(bout), 600)
 	}
@@ -511,10 +552,35 @@ func NativeReplay(rf ReplayFile, path string) (bool, string) {
 		return false, err.Error()
 	}
 	defer os.RemoveAll(tmp)
-	bin, problem := nativeBuild(rf.Pkg, rf.Func, tmp)
+	race := strings.HasSuffix(rf.Label, "/no-data-race")
+	bin, problem := nativeBuild(rf.Pkg, rf.Func, tmp, rf.SyncFiles, race)
 	if problem != "" {
 		os.WriteFile(path+".log", []byte(problem), 0o644)
 		return false, problem
+	}
+	if race {
+		// a data race is confirmed by Go's race detector on free-running goroutines (a replayed
+		// schedule orders all operations and would hide it): same inputs, schedule entries removed
+		free := rf
+		free.Nondet = map[string]uint64{}
+		for k, v := range rf.Nondet {
+			if !strings.HasPrefix(k, "sched") {
+				free.Nondet[k] = v
+			}
+		}
+		fp := filepath.Join(tmp, "free.json")
+		data, _ := json.Marshal(free)
+		os.WriteFile(fp, data, 0o644)
+		var txt string
+		for i := 0; i < 25; i++ {
+			txt = nativeRun(bin, rf.Pkg, tmp, fp)
+			if strings.Contains(txt, "WARNING: DATA RACE") {
+				os.WriteFile(path+".log", []byte(txt), 0o644)
+				return true, fmt.Sprintf("data race reported by the Go race detector (free run %d)", i+1)
+			}
+		}
+		os.WriteFile(path+".log", []byte(txt), 0o644)
+		return false, "Go race detector silent in 25 free runs"
 	}
 	txt := nativeRun(bin, rf.Pkg, tmp, path)
 	os.WriteFile(path+".log", []byte(txt), 0o644)
@@ -554,7 +620,7 @@ func SelfTest(id string, e EntrySpec, bounds map[string]int, cases []interp.Self
 		return 0, len(cases), []string{err.Error()}
 	}
 	defer os.RemoveAll(tmp)
-	bin, problem := nativeBuild(e.Pkg, e.Func, tmp)
+	bin, problem := nativeBuild(e.Pkg, e.Func, tmp, e.SyncFiles, false)
 	if problem != "" {
 		return 0, len(cases), []string{"self-test: " + problem}
 	}
